@@ -23,6 +23,7 @@ const isoMapFn = `function(doc, meta) { if (doc.v !== undefined) { emit(doc.v, m
 type IsoWorld struct {
 	cfg     Config
 	b1, b2  *rosmar.Bucket
+	b1x, b1y *rosmar.Bucket // further handles on b1: x opened the subject collection at the start, y never opens any
 	a, b, c *rosmar.Collection // subject, witness in b1, witness in b2
 	fa, fb, fc *FeedRec
 	aDropped, bDropped bool
@@ -52,6 +53,11 @@ func init() {
 		w.b2, err = rosmar.OpenBucket(BucketURL(cfg, "b2"), "b2", rosmar.CreateOrOpen)
 		must(err)
 		w.a, w.b, w.c = coll(w.b1, NameA), coll(w.b1, NameB), coll(w.b2, NameA)
+		w.b1x, err = rosmar.OpenBucket(BucketURL(cfg, "b1"), "b1", rosmar.CreateOrOpen)
+		must(err)
+		w.b1y, err = rosmar.OpenBucket(BucketURL(cfg, "b1"), "b1", rosmar.CreateOrOpen)
+		must(err)
+		_ = coll(w.b1x, NameA)
 		preloadWitness(w.b)
 		preloadWitness(w.c)
 		w.fa, err = StartLiveFeed(w.a, "fa")
@@ -72,7 +78,7 @@ func (w *IsoWorld) Bucket() *rosmar.Bucket { return w.b1 }
 
 func (w *IsoWorld) Alphabet(tier int) []string {
 	return []string{"Set/k", "Set/j", "Set/exp", "Add/t", "Delete/k", "Touch/k", "GetAndTouch/j", "SetXattrs/k", "WriteWithXattrs/t", "WriteTombstone/k", "Incr/n", "Update/k",
-		"PutDDoc", "PutDDoc2", "DeleteDDoc", "View", "ViewStale", "Query", "CreateIndex", "Purge", "Advance/20", "Advance/60", "DropA", "RecreateA", "DropB", "WriteSubDoc/k", "DeleteWithXattrs/k", "SetWithMeta/k"}
+		"PutDDoc", "PutDDoc2", "DeleteDDoc", "View", "ViewStale", "Query", "CreateIndex", "Purge", "Purge/y", "Advance/20", "Advance/60", "DropA", "DropA/x", "DropA/y", "RecreateA", "RecreateA/x", "Lookup/other", "CreateExisting/y", "DropB", "WriteSubDoc/k", "DeleteWithXattrs/k", "SetWithMeta/k"}
 }
 
 func viewString(c *rosmar.Collection, ddoc, view string, params map[string]any) string {
@@ -158,7 +164,7 @@ func (w *IsoWorld) Apply(op string) (string, []Violation) {
 	var err error
 	bucketWide := false // the operation legitimately acts on every collection of b1
 	allExpire := false
-	if w.aDropped && op != "RecreateA" && op != "DropB" && op != "Purge" && !strings.HasPrefix(op, "Advance") {
+	if w.aDropped && !strings.HasPrefix(op, "RecreateA") && op != "DropB" && !strings.HasPrefix(op, "Purge") && !strings.HasPrefix(op, "Advance") {
 		return "skip", nil
 	}
 	switch op {
@@ -217,6 +223,17 @@ func (w *IsoWorld) Apply(op string) (string, []Violation) {
 	case "Purge":
 		_, err = w.b1.PurgeTombstones()
 		bucketWide = true
+	case "Purge/y":
+		var n int64
+		n, err = w.b1y.PurgeTombstones()
+		bucketWide = true
+		if d, derr := rosmar.VerifDumpAll(w.b1); derr == nil {
+			for _, r := range d.Docs {
+				if !r.HasValue {
+					c.add("C05", "purge-leftover", "PurgeTombstones through a handle that has opened no collection returned %d and left tombstone %s/%s", n, r.Collection, r.Key)
+				}
+			}
+		}
 	case "Advance/20":
 		vrt.Advance(20 * time.Second)
 		if int64(NowSecs())-vrt.Epoch/1e9 >= 50 {
@@ -225,14 +242,24 @@ func (w *IsoWorld) Apply(op string) (string, []Violation) {
 	case "Advance/60":
 		vrt.Advance(60 * time.Second)
 		allExpire = true // the witnesses' own deadlines (50 s) pass: every bucket expires its own documents
-	case "DropA":
-		err = w.b1.DropDataStore(NameA)
+	case "DropA", "DropA/x", "DropA/y":
+		h := w.b1
+		if op == "DropA/x" {
+			h = w.b1x
+		} else if op == "DropA/y" {
+			h = w.b1y
+		}
+		err = h.DropDataStore(NameA)
 		w.aDropped = true
-	case "RecreateA":
+	case "RecreateA", "RecreateA/x":
 		if !w.aDropped {
 			return "skip", nil
 		}
-		w.a = coll(w.b1, NameA)
+		h := w.b1
+		if op == "RecreateA/x" {
+			h = w.b1x
+		}
+		w.a = coll(h, NameA)
 		w.aDropped = false
 		w.oldFeeds = append(w.oldFeeds, w.fa)
 		w.fa, err = StartLiveFeed(w.a, "fa")
@@ -242,6 +269,37 @@ func (w *IsoWorld) Apply(op string) (string, []Violation) {
 		}
 		if dd, _ := w.a.GetDDocs(); len(dd) != 0 {
 			c.add("C11", "recreate-not-empty", "re-created collection has design documents: %v", dd)
+		}
+	case "Lookup/other":
+		// every handle reaches the current incarnation, whatever it had cached (an operation of its own:
+		// looking the collection up refreshes that handle's cache, which later steps may depend on)
+		for _, h := range []*rosmar.Bucket{w.b1, w.b1x} {
+			oc := coll(h, NameA)
+			if oc.GetCollectionID() != w.a.GetCollectionID() {
+				c.add("C11", "recreate-stale-handle", "an open handle resolves sc.A to collection id %d, the collection now has id %d", oc.GetCollectionID(), w.a.GetCollectionID())
+			} else if a, b := queryString(oc, `SELECT count(*) AS n FROM $_keyspace`, nil), queryString(w.a, `SELECT count(*) AS n FROM $_keyspace`, nil); a != b {
+				c.add("C11", "recreate-stale-handle", "sc.A counts %s documents through one handle and %s through another", a, b)
+			}
+		}
+	case "CreateExisting/y":
+		// "make sure my collections exist" through a handle that has not opened them: whatever it answers,
+		// that handle must afterwards reach the very collection the others use
+		cerr := w.b1y.CreateDataStore(ctx, NameA)
+		yc, lerr := w.b1y.NamedDataStore(NameA)
+		if lerr != nil {
+			c.add("C11", "create-existing", "after CreateDataStore(existing) = %v the handle cannot open the collection: %v", cerr, lerr)
+			break
+		}
+		y := yc.(*rosmar.Collection)
+		if y.GetCollectionID() != w.a.GetCollectionID() {
+			c.add("C11", "create-existing", "after CreateDataStore(existing) = %v the handle resolves sc.A to collection id %d; it is %d", cerr, y.GetCollectionID(), w.a.GetCollectionID())
+		}
+		for _, k := range []string{"k", "j", "t"} {
+			v1, c1, e1 := y.GetRaw(k)
+			v2, c2, e2 := w.a.GetRaw(k)
+			if string(v1) != string(v2) || c1 != c2 || ErrClass(e1) != ErrClass(e2) {
+				c.add("C11", "create-existing", "after CreateDataStore(existing) = %v key %s reads (%q,%d,%v) through that handle and (%q,%d,%v) through another", cerr, k, v1, c1, e1, v2, c2, e2)
+			}
 		}
 	case "DropB":
 		if w.bDropped {
@@ -257,8 +315,13 @@ func (w *IsoWorld) Apply(op string) (string, []Violation) {
 		result = "err:" + ErrClass(err)
 	}
 	// ---- the subject after its own drop: everything of it is gone
-	if op == "DropA" {
+	if strings.HasPrefix(op, "DropA") {
 		d, _ := rosmar.VerifDumpAll(w.b1)
+		for _, cr := range d.Collections {
+			if cr.Name == "sc.A" {
+				c.add("C11", "drop-leftover", "collection sc.A (id %d) is still in the collections table after %s returned %s", cr.ID, op, result)
+			}
+		}
 		for _, r := range d.Docs {
 			if r.Collection == "sc.A" || r.Collection == "" {
 				c.add("C11", "drop-leftover", "document %s/%s survived DropDataStore(sc.A)", r.Collection, r.Key)
@@ -359,7 +422,7 @@ func (w *IsoWorld) Canon() string {
 			wits++
 		}
 	}
-	return fmt.Sprintf("A=%v views=%v dropA=%v dropB=%v witB=%d now=%d", parts, views, w.aDropped, w.bDropped, wits, now-uint32(vrt.Epoch/1e9))
+	return fmt.Sprintf("A=%v views=%v dropA=%v dropB=%v witB=%d now=%d caches=%s/%s", parts, views, w.aDropped, w.bDropped, wits, now-uint32(vrt.Epoch/1e9), CacheState(w.b1), CacheState(w.b1x))
 }
 
 func (w *IsoWorld) Close() {
